@@ -185,8 +185,11 @@ class MultiTierCache(Entity):
                 if value is not None:
                     self._tier_hits[tier_idx] = self._tier_hits.get(tier_idx, 0) + 1
 
-                    # Promote to higher tier if applicable
-                    if tier_idx > 0:
+                    # Promote to higher tier if applicable. The value was read
+                    # before the tier's latency: if the tier dropped the key
+                    # meanwhile (a put or delete invalidated it), the value is
+                    # outdated and must not overwrite what L1 holds now.
+                    if tier_idx > 0 and tier.contains_cached(key):
                         self._maybe_promote(key, value, tier_idx)
 
                     return value
